@@ -48,6 +48,9 @@ def worker(ctx, job):
         ctx.hit("gated_condaux_histories")
         if r[2] and r[3] is not None:
             ctx.hit("gated_condaux_started_after_refusals")
+        if case["oneshot"]:
+            ctx.hit("oneshot_condaux_histories")
+            ctx.hit("oneshot_condaux_starts", r[4])
         ctx.case(case["text"], nontrivial=bool(r[2]), sample=None)
         ctx.check(r[0] == "ok", "gated-condaux/not-entered-when-its-conditions-hold-and-it-can-be",
                   "conditional aux guarded by `%s`, entry guard opening at tick %d: %s" % (case["kind"], case["gate"] - 1, r[1]),
